@@ -4,12 +4,12 @@
    M = BTree/BTree.v (page heap, byte accounting, the code's three binary searches, cursor),
    S = BTree/Spec.v  (list sorted by key, newest first among equal keys).
 
-   The pinned code does NOT satisfy the property: four refutations (witnesses evaluated in
-   the faithful model; the same histories are corpus cases 0-3 of the harness, where the
+   The pinned code does NOT satisfy the property: three refutations (witnesses evaluated in
+   the faithful model; the same histories are corpus cases 0, 1, 3 of the harness, where the
    real code gives the same answers).  The full refinement statement for histories outside
-   the three known classes is kept as C26_full_statement; what is proved of it is listed
+   the two known classes is kept as C26_full_statement; what is proved of it is listed
    below (theorems named _partial). *)
-From NDB Require Import Base.Bytes BTree.BTree BTree.Spec BTree.Witness.
+From NDB Require Import Base.Bytes BTree.BTree BTree.Spec BTree.Witness BTree.Leaf_proofs BTree.SingleLeaf_proofs.
 
 (* ---- the full statement (NOT proved; see the _partial theorems and the manifest) ---- *)
 (* for every history outside the known classes: every operation (insert, delete, lookup, seek+scan,
@@ -27,28 +27,87 @@ Proof. exact refuted_delete. Qed.
 Print Assumptions C26_refuted_delete.
 
 (* K-C26-dups, lookup and seek: nine inserts of one 900-byte key; lookup returns payload 4, not the
-   newest (9), and the seek from the key sees 5 of the 9 entries; no leaf is empty *)
+   newest (9), and the seek from the key sees 5 of the 9 entries *)
 Definition C26_refuted_lookup_statement : Prop :=
-  exists ops k, has_gap ops = false /\
+  exists ops k,
     lookup (fst (run ops)) k = inl (Some 4) /\ s_lookup k (fst (s_run ops)) = Some 9 /\
     (exists l, scan_from (fst (run ops)) k = inl l /\ length l = 5%nat /\ length (s_from k (fst (s_run ops))) = 9%nat).
 Theorem C26_refuted_lookup : C26_refuted_lookup_statement.
 Proof. exact refuted_lookup. Qed.
 Print Assumptions C26_refuted_lookup.
 
-(* K-C26-emptyleaf: no key is ever stored twice, yet a full scan returns 4 of the 26 stored entries *)
-Definition C26_refuted_scan_statement : Prop :=
-  exists ops l, has_dup ops = false /\ has_failed_op ops = false /\
-    scan_all (fst (run ops)) = inl l /\ length l = 4%nat /\ length (fst (s_run ops)) = 26%nat.
-Theorem C26_refuted_scan : C26_refuted_scan_statement.
-Proof. exact refuted_scan. Qed.
-Print Assumptions C26_refuted_scan.
-
 (* K-C26-splitfit: 17 inserts of distinct keys (2 and 900 bytes), nothing deleted; the last insert panics *)
 Definition C26_refuted_insert_statement : Prop :=
-  exists ops, has_dup ops = false /\ has_gap ops = false /\
+  exists ops, has_dup ops = false /\
     (forall o, In o ops -> exists k v, o = OInsert k v /\ (length k <= 900)%nat) /\
     last (snd (run ops)) RUnit = RPanic.
 Theorem C26_refuted_insert : C26_refuted_insert_statement.
 Proof. exact refuted_insert. Qed.
 Print Assumptions C26_refuted_insert.
+
+(* ---- proved for all inputs (parts of C26_full_statement) ---- *)
+
+(* every history in which no key is ever stored twice and which never allocates a page (the tree stays
+   one leaf, any number of operations, any keys, deletes leaving dead bytes): every insert, delete,
+   lookup, seek+scan and reopen returns what the sorted multimap returns, and the final full scan is the
+   multimap.  Non-vacuous: BTree/SingleLeaf_proofs.v single_leaf_nonvacuous. *)
+Definition C26_single_leaf_partial_statement : Prop :=
+  forall ops, has_dup ops = false -> st_next (fst (run ops)) = bt_first_data_page + 1 ->
+    snd (run ops) = snd (s_run ops) /\ scan_all (fst (run ops)) = inl (fst (s_run ops)).
+Theorem C26_single_leaf_partial : C26_single_leaf_partial_statement.
+Proof. exact single_leaf_refines. Qed.
+Print Assumptions C26_single_leaf_partial.
+
+(* the insert position in a leaf (the code's lower-bound loop) is the multimap's: in front of every
+   entry with key >= k, hence newest first among equal keys — for every sorted leaf, equal keys allowed *)
+Definition C26_leaf_insert_partial_statement : Prop :=
+  forall l k v, wsorted l -> insert_at (lower_bound l k) (k, v) l = s_insert k v l.
+Theorem C26_leaf_insert_partial : C26_leaf_insert_partial_statement.
+Proof. exact leaf_insert_refines. Qed.
+Print Assumptions C26_leaf_insert_partial.
+
+(* delete's slice::binary_search_by on (key, payload), in a leaf without equal keys: reports found iff
+   the pair is stored and removes exactly that cell *)
+Definition C26_leaf_delete_partial_statement : Prop :=
+  forall l k v, ssorted l ->
+    let (found, idx) := bsearch (map (fun c : cell => cell_cmp c k v) l) in
+    found = fst (s_delete k v l) /\ (if found then remove_at idx l else l) = snd (s_delete k v l).
+Theorem C26_leaf_delete_partial : C26_leaf_delete_partial_statement.
+Proof. exact leaf_delete_refines. Qed.
+Print Assumptions C26_leaf_delete_partial.
+
+(* the median split of a full leaf without equal keys: the halves are the multimap's list cut at the
+   median, the right half is not empty, both stay sorted, the separator (first key of the right half) is
+   strictly above every key of the left half and at most every key of the right half *)
+Definition C26_leaf_split_partial_statement : Prop :=
+  forall l k v, ssorted l -> has_key k l = false ->
+    let (a, b) := split_leaf_entries l k v in
+    a ++ b = s_insert k v l /\ b <> [] /\ ssorted a /\ ssorted b /\
+    Forall (fun c : cell => lex_lt (fst c) (fst (hd ([], 0) b))) a /\
+    Forall (fun c : cell => lex_cmp (fst (hd ([], 0) b)) (fst c) <> Gt) b.
+Theorem C26_leaf_split_partial : C26_leaf_split_partial_statement.
+Proof. exact leaf_split_separator. Qed.
+Print Assumptions C26_leaf_split_partial.
+
+(* the descent rule on sorted separators (the code's upper-bound loop): right child of the last
+   separator <= k, else the leftmost child *)
+Definition C26_descent_partial_statement : Prop :=
+  forall lm l k, wsorted l ->
+    child_for_key lm l k =
+      match rev (le_prefix k l) with
+      | [] => (lm, O)
+      | c :: _ => (snd c, length (le_prefix k l))
+      end.
+Theorem C26_descent_partial : C26_descent_partial_statement.
+Proof. exact descent_rule. Qed.
+Print Assumptions C26_descent_partial.
+
+(* the model of core::slice::binary_search_by on any monotone comparison list Lt^a Eq^b Gt^c:
+   Ok(last Equal index) if b > 0, else Err(a) *)
+Definition C26_binary_search_partial_statement : Prop :=
+  forall la le lg, Forall (eq Lt) la -> Forall (eq Eq) le -> Forall (eq Gt) lg ->
+    bsearch (la ++ le ++ lg) =
+      if Nat.ltb 0 (length le) then (true, pred (length la + length le)) else (false, length la).
+Theorem C26_binary_search_partial : C26_binary_search_partial_statement.
+Proof. exact bsearch_blocks. Qed.
+Print Assumptions C26_binary_search_partial.
